@@ -42,12 +42,16 @@ def world_cfg(case):
     # one more persistent peer whose reconnect deadline falls inside the shutdown window
     peers.append({"name": "peer9.example", "ip": ["10.1.1.9"], "persistent": bool(case.get("reconnect_inside")),
                   "reconnect_wait": case.get("reconnect_wait", 3)})
+    if case.get("dead_dials"):
+        # a persistent peer that cannot be reached at all: every dial fails at once (no route to the host), from start() on
+        peers.append({"name": "peer8.example", "ip": ["10.1.1.8"], "persistent": True, "reconnect_wait": case.get("reconnect_wait", 3)})
     app = {"app_id": 4, "auth": True, "peers": list(range(len(peers))), "kind": case.get("app_kind", "basic"),
            "handler": "answer"}
     return {"peers": peers, "apps": [app], "default_dial": "inprogress",
             "node_timers": {"idle": 5000, "dwa": 5000, "cer": 5000, "cea": 5000, "wakeup": case.get("wakeup", 2)},
             "sched_seed": case.get("seed", 0), "yield_all": case.get("yield_all", False),
             "extra_listen": case.get("extra_listen", 0),
+            "dial_plan": {"10.1.1.8": [["sync-error", 101]] * 400} if case.get("dead_dials") else {},
             "policy": "random" if case.get("seed", 0) % 2 else "fifo"}
 
 
@@ -288,7 +292,8 @@ def evaluate(case) -> Result:
         res.nontrivial = (any(not r for r in ready_at_stop) or bool(newcomers) or
                           any(cs.get("reaction") != "prompt" for cs in case["conns"]))
         res.classes += [f"listeners:{1 + case.get('extra_listen', 0)}", f"nconns:{len(conns)}", f"force:{force}", f"wait:{'zero' if wait == 0 else 'positive'}", f"newcomers:{min(len(newcomers), 2)}",
-                        f"app:{case.get('app_kind', 'basic')}", f"reconnect-inside:{bool(case.get('reconnect_inside'))}"]
+                        f"app:{case.get('app_kind', 'basic')}", f"reconnect-inside:{bool(case.get('reconnect_inside'))}",
+                        f"unreachable-persistent-peer:{bool(case.get('dead_dials'))}"]
         for cs in case["conns"]:
             res.classes += [f"state:{cs['state']}", f"reaction:{cs.get('reaction')}"]
         res.sample = {"case": case, "returned_after": None if returned_at is None else returned_at - t_stop,
@@ -639,6 +644,7 @@ def shard_main(shard, nshards, tier, scale):
                 "wakeup": draw(st.integers(1, 3)),
                 "newcomers": [list(x) for x in draw(st.lists(st.tuples(st.integers(0, 6), st.booleans()), max_size=2))],
                 "reconnect_inside": draw(st.booleans()), "reconnect_wait": draw(st.integers(1, 6)),
+                "dead_dials": draw(st.sampled_from([False, False, True])),
                 "pre_gap": draw(st.integers(0, 3)), "blocked_sender": draw(st.booleans()),
                 "app_kind": draw(st.sampled_from(["basic", "threading"])),
                 "seed": draw(st.integers(0, 7)), "yield_all": draw(st.booleans()),
@@ -657,7 +663,7 @@ def run(tier, scale=1.0):
     rec = Recorder(PID)
     for d in hyp.pool_run(shard_main, (tier, scale)):
         rec.merge(d)
-    required = {"wait:zero": 1, "exploration:dpa-vs-writer": 1, "exploration:stop-vs-garbage": 1, "exploration:two-stops": 1, "exploration:stop-vs-watchdog": 1} | {f"state:{s}": 1 for s in set(STATES)} | {f"reaction:{r}": 1 for r in REACTIONS} | \
+    required = {"wait:zero": 1, "unreachable-persistent-peer:True": 1, "exploration:dpa-vs-writer": 1, "exploration:stop-vs-garbage": 1, "exploration:two-stops": 1, "exploration:stop-vs-watchdog": 1} | {f"state:{s}": 1 for s in set(STATES)} | {f"reaction:{r}": 1 for r in REACTIONS} | \
                {"schedule-exploration": 1, "handshake-completes-while-stopping": 1, "listeners:2": 1, "listeners:4": 1, "simultaneous-dpas": 1, "second-connection-of-a-peer": 1, "force:True": 1, "newcomers:2": 1, "nconns:3": 1, "reconnect-inside:True": 1, "app:threading": 1}
     return finish(rec, tier=tier, level="exploration", rule=RULE, assumptions=ASSUME, t0=t0,
                   required_classes=required)
